@@ -226,13 +226,7 @@ Section OpUpdate.
     obind (update_equations base_eqs u) (fun eqs =>
     Some (eqs, filter (fun kv => used eqs (fst kv)) (update_map base_vars vupd))).
 
-  (* what the BASE template's variables are after the call: without a `variables` argument the code works on
-     `variables = self.variables` (the base's own dict, not a copy) and pops the rogue variables from it *)
-  Definition base_vars_after (base_vars : list (str * V)) (eqs : list str) (vupd : list (str * V)) : list (str * V) :=
-    match vupd with
-    | [] => filter (fun kv => used eqs (fst kv)) base_vars
-    | _ => base_vars
-    end.
-  Definition base_not_mutated (base_vars : list (str * V)) (eqs : list str) (vupd : list (str * V)) : bool :=
-    match vupd with [] => forallb (fun kv => used eqs (fst kv)) base_vars | _ => true end.
+  (* the BASE template is left as it is: since fix D44 the code works on `dict(self.variables)`, a copy (before that the
+     rogue variables were popped from the base's own dict when no `variables` argument was given; the witness is kept as
+     regression case corpus/C15/D35_base_mutated.json and the correspondence run observes the base after every call) *)
 End OpUpdate.
